@@ -638,6 +638,20 @@ def _(w, e):
     w.fs.written_log[norm(e["path"])] = [e["text"]]
 
 
+@op("fs_damage")
+def _(w, e):
+    """A damaged copy of a file that is already there (a torn or cut-short write of the same text): the text of
+    ``src`` up to the fraction ``frac`` of its length, or with the one character at that place left out."""
+    from .simfs import norm
+    text = w.fs.files.get(norm(e["src"]))
+    if not isinstance(text, str) or len(text) < 4:
+        raise Skip("nothing to damage")
+    i = max(1, min(len(text) - 1, int(len(text) * e["frac"])))
+    bad = text[:i] if e.get("how", "cut") == "cut" else text[:i] + " (( " + text[i:]
+    w.fs.files[norm(e["dst"])] = bad
+    w.fs.written_log[norm(e["dst"])] = [bad]
+
+
 @op("restart")
 def _(w, e):
     w.restart()
